@@ -148,6 +148,7 @@ def judge(case, io_, mo):
             got = iu.dict_of_text(lo[3:])
             if want.pop('?DE43', False):
                 got = {k: v for k, v in got.items() if not k.startswith('DE43_')}
+                want = {k: v for k, v in want.items() if not k.startswith('DE43_')}
             if got != want or any(type(got[k]) is not type(want[k]) for k in got):
                 bad = [k for k in set(got) | set(want) if got.get(k) != want.get(k)][:3]
                 ps.append({'kind': 'oracle', 'sig': 'decoded-differs-from-independent-reading', 'msg': 'keys %s differ from the independent reading' % bad})
